@@ -67,6 +67,7 @@ type c13worker struct {
 	idx   int
 	dir   string
 	block int
+	liveBlock int // first port of the two blocks of the live-state family (liveworker.go)
 	cores int
 	lastErr string
 	fresh map[string]map[string]*compSnap // configuration text -> snapshot of a fresh Core
@@ -463,10 +464,25 @@ func workerMain(idx int, tmp string) {
 	if err == nil {
 		block, err = c12lib.PickBlock(25000, idx, 64, portBlock)
 	}
-	w := &c13worker{idx: idx, dir: dir, block: block, fresh: map[string]map[string]*compSnap{}}
+	liveBlock := 0
+	if err == nil {
+		// the live-state family runs two small Cores at a time: two blocks of livePorts ports behind the main block
+		liveBlock, err = c12lib.PickBlock(25000+portBlock, idx, 64, 2*livePorts)
+	}
+	w := &c13worker{idx: idx, dir: dir, block: block, liveBlock: liveBlock, fresh: map[string]map[string]*compSnap{}}
 	c12lib.WorkerLoop(func(raw json.RawMessage) any {
 		if err != nil {
 			return &CaseResult{HarnessError: err.Error()}
+		}
+		var probe struct {
+			Mode string `json:"mode"`
+		}
+		if e := json.Unmarshal(raw, &probe); e == nil && probe.Mode != "" {
+			var lc LiveCase
+			if e = json.Unmarshal(raw, &lc); e != nil {
+				return &LiveResult{Live: true, HarnessError: "bad case: " + e.Error()}
+			}
+			return w.runLive(&lc)
 		}
 		var c Case
 		if e := json.Unmarshal(raw, &c); e != nil {
